@@ -4,7 +4,7 @@ from __future__ import annotations
 import ast
 import itertools
 
-from ..core import AnalysisError, call_name, dotted, norm, walk_no_nested
+from ..core import AnalysisError, call_name, dotted, kwarg, norm, walk_no_nested
 from ..guards import sites, terminates
 from ..registry import describe, rule
 from .. import tmatch as tm
@@ -460,6 +460,35 @@ def imap(rc):
             rc.fail(f, c, "the screening test must be X ⟂ (predecessors ∖ S) | S for the candidate parent set S", construct="minimal_imap screening test")
 
 
+@rule("C18.imapeq", "is_imap compares the joint with the product of the CPDs in one state-name space", floor=2)
+def imapeq(rc):
+    """A JointProbabilityDistribution has no state names (positions only).  DiscreteFactor equality aligns states by NAME, so comparing a factor rebuilt from the
+    joint WITHOUT names with the product of CPD factors that carry names is False for every network whose CPDs name their states."""
+    repo = rc.repo
+    for rel, q in ((JPD, "JointProbabilityDistribution.is_imap"), ("pgmpy/models/BayesianNetwork.py", "BayesianNetwork.is_imap")):
+        f = repo.func(rel, q)
+        cmps = [n for n in walk_no_nested(f.node) if isinstance(n, ast.Compare) and isinstance(n.ops[0], ast.Eq)]
+        if not cmps:
+            raise AnalysisError(f"{q}: equality test not found")
+        from ..util import single_defs
+        d = {}
+        for n in sorted([x for x in walk_no_nested(f.node) if isinstance(x, ast.Assign) and isinstance(x.targets[0], ast.Name)], key=lambda x: (x.lineno, x.col_offset)):
+            d.setdefault(n.targets[0].id, []).append(n.value)
+
+        def nameless(e):
+            defs_ = d.get(e.id, []) if isinstance(e, ast.Name) else [e]
+            last = defs_[-1] if defs_ else None
+            return isinstance(last, ast.Call) and call_name(last) == "DiscreteFactor" and kwarg(last, "state_names") is None and len(last.args) <= 3
+
+        for c in cmps:
+            l, r = c.left, c.comparators[0]
+            nl, nr = nameless(l), nameless(r)
+            rc.ob(f"{q}: compares `{norm(l)}` (rebuilt without names: {nl}) with `{norm(r)}` (rebuilt without names: {nr})")
+            if nl != nr:
+                rc.fail(f, c, f"{q}: one side of `{norm(c)}` is rebuilt without state names (positions 0..k-1) and the other keeps the CPDs' state names; factor equality aligns states "
+                        "by name, so the answer is False for every network whose CPDs name their states", construct="is_imap mixes state-name spaces")
+
+
 @rule("C18.symmetry", "IndependenceAssertion: __eq__ accepts the swap of the first two events iff __hash__ is invariant under it", floor=2)
 def symmetry(rc):
     repo = rc.repo
@@ -493,6 +522,8 @@ def defuse(rc):
     _sh.defuse_rule(rc, _sh.anchor_files("C18"))
 
 MUTANTS = [
+    dict(kind="break", name="is-imap-mixes-name-spaces", file=JPD, expect="C18.imapeq",
+         old="        factor_prod = DiscreteFactor(\n            factor_prod.variables, factor_prod.cardinality, factor_prod.values\n        )\n        JPD_fact = DiscreteFactor(self.variables", new="        JPD_fact = DiscreteFactor(self.variables"),
     dict(kind="repair", name="minimal-imap-falls-back-to-all-predecessors", file=JPD, gone="C18.imap",
          old="                    G.add_edges_from(\n                        [(variable, order[variable_index]) for variable in subset]\n                    )\n        return G",
          new="                    G.add_edges_from(\n                        [(variable, order[variable_index]) for variable in subset]\n                    )\n                    separated = True\n            if not separated:\n                G.add_edges_from([(variable, order[variable_index]) for variable in u])\n        return G"),
